@@ -441,6 +441,15 @@ func main() {
 		e.pin = rp.Model
 		e.pinCtl = rp.Picks
 	}
+	if first := strings.SplitN(strings.SplitN(*fn, ";", 2)[0], ":", 2); len(first) > 1 {
+		for _, kv := range strings.Split(first[1], ",") {
+			if ps := strings.SplitN(kv, "=", 2); len(ps) == 2 {
+				var v int
+				fmt.Sscanf(ps[1], "%d", &v)
+				e.params[ps[0]] = v
+			}
+		}
+	}
 	if *pinFile != "" || *prefixS != "" || os.Getenv("GOSYM_SINGLE") != "" {
 		var prefix []int
 		for _, s := range strings.Split(*prefixS, ",") {
